@@ -92,6 +92,7 @@ pub proof fn lemma_after_take(v0: Seq<Payload>, v1: Seq<Payload>, k: int, m: int
 
 impl ByteReader {
 //@@ fn file=fe2o3-amqp/src/util/mod.rs impl=`impl io::Read for ByteReader<Payload>` name=read
+//@@ shape loops=while
 //@@ attr #[verifier::loop_isolation(false)]
 //@@ ret Result<usize, IoError>
 //@@ subst `Buf::copy_to_slice(&mut partial, &mut dst[__E1..])` => `{ let __e = dst.len(); copy_to_slice_at(&mut partial, dst, __E1, __e) }` rule=R9
